@@ -253,7 +253,7 @@ def h_reject(R: int, W: int, R2: int, pos: int) -> bool:
 
 
 # ------------------------------------------------------------------ in-place updates and histories
-OPS = ['rshift', 'lshift', 'slice', 'mask', 'sort', 'setcell', 'setrow', 'setcol', 'setattr', 'rename', 'T', 'fail-setattr', 'fail-row', 'fail-col', 'colsel', 'region']
+OPS = ['view-slice-write', 'view-mask-write', 'rshift', 'lshift', 'slice', 'mask', 'sort', 'setcell', 'setrow', 'setcol', 'setattr', 'rename', 'T', 'fail-setattr', 'fail-row', 'fail-col', 'colsel', 'region']
 
 
 def _apply(op, t, p):
@@ -262,6 +262,23 @@ def _apply(op, t, p):
     names = t.column_names()
     if W == 0:
         return t         # zero-column tables are degenerate: nothing to select or write
+    if op == 'view-slice-write':
+        # slice writes through a live column view, incl. empty, reversed and out-of-range slices: the column must keep its length
+        col = t.cols()[p % W]
+        for sl in (slice(3, 1), slice(5, None), slice(None, None, -1), slice(1, 1), slice(-1, -5, -1), slice(R, R + 2)):
+            try:
+                col[sl] = 77
+            except Exception:
+                pass
+        return t
+    if op == 'view-mask-write':
+        col = t.cols()[p % W]
+        for key, val in (([True] * R, list(range(R))), ([False] * R, []), (list(range(R)), list(range(R)))):
+            try:
+                if R: col[key] = val
+            except Exception:
+                pass
+        return t
     if op == 'rshift':
         return t >> Vector([800 + i for i in range(R)], name='x%d' % p)
     if op == 'lshift':
@@ -432,7 +449,7 @@ def obligations(tier):
                             smoke=[[1, 2, 3, 4, 5, 6, n, 7, 8, 0, 0, False, False, False]]))
     for o0 in range(len(OPS)):
         obs.append(dict(name='hist[H=2,first=%s]' % OPS[o0], fn='h_hist', config={'o0': o0, 'H': 2}, budget=120 if q else 300,
-                        bounds='every start shape 0..3 x 1..3, first operation fixed per job, every second operation of the 16-operation alphabet, 2 parameter values each; '
+                        bounds='every start shape 0..3 x 1..3, first operation fixed per job, every second operation of the 18-operation alphabet, 2 parameter values each; '
                                'every table held along the way is checked after every step', smoke=[[2, 2, o0, 1, 0, 0, 1, 0]]))
         if not q:
             obs.append(dict(name='hist[H=3,first=%s]' % OPS[o0], fn='h_hist', config={'o0': o0, 'H': 3}, budget=900,
